@@ -198,6 +198,29 @@ def table_config(rnd):
     return steps, m.tab, texts
 
 
+def big_table_config(rnd):
+    m = Model()
+    names = ["w%d" % i for i in range(130)] + ["f%dx" % i for i in range(10)]
+    steps = []
+    for i, nm in enumerate(names):
+        prec = rnd.randint(1, 400)
+        assoc = rnd.choice(["LEFT", "RIGHT"])
+        for k2, v in m.tab.infix.items():
+            if v[0] == prec:
+                assoc = v[1]
+        m.tab.infix[nm] = (prec, assoc, "CALC")
+        steps.append({"op": "reg_infix", "name": nm, "prec": prec, "type": "CALC", "assoc": assoc, "beh": {"id": 400 + i, "ret": "tag"}})
+    texts = []
+    for _ in range(400):
+        k = rnd.randint(2, 5)
+        ops = [rnd.choice(names + ["+", "*", "<", "&&", "="]) for _ in range(k)]
+        toks = ["a"]
+        for i, o in enumerate(ops):
+            toks += [o, "bcdefg"[i]]
+        texts.append(" ".join(toks))
+    return steps, m.tab, texts
+
+
 def rel(tab, a, b):
     pa, pb = tab.infix[a][0], tab.infix[b][0]
     d = pb - pa
@@ -278,7 +301,7 @@ def run_shard(desc):
                     part["violations"].append({"sig": [st, evalcheck.top_op(t).split(" ")[0], first], "what": "after registrations [%s] `%s` (context: %s): %s" % ("; ".join(regs), text, json.dumps(steps[i - 1].get("fns") or steps[i - 1].get("vars")), detail),
                                                "replay": {"steps": steps[: i + 1]}})
         else:
-            regs, tab, texts = table_config(rnd)
+            regs, tab, texts = table_config(rnd) if not (si == 0 and h == 0) else big_table_config(rnd)
             todo = []
             for s in texts:
                 try:
